@@ -41,9 +41,12 @@ P_EPS = 1e-12
 
 
 class Tagged(Violation):
-    def __init__(self, props: Sequence[str], oracle: str, detail: str, site: Optional[dict] = None):
+    def __init__(self, props: Sequence[str], oracle: str, detail: str, site: Optional[dict] = None, from_invariant: bool = False):
         super().__init__(oracle, detail, site)
         self.props = list(props)
+        # raised by the after-step invariants (the step's own oracle had passed): the physical
+        # state is still as predicted, so a program may go on after such a verdict for another property
+        self.from_invariant = from_invariant
 
 
 class Inapplicable(Exception):
@@ -247,10 +250,10 @@ class Machine:
         w = self.w
         probs = validity_problems(w, post)
         if probs:
-            raise Tagged(["C07"], "invalid-state", "; ".join(probs[:3]), dict(site, what=probs[0].split(":")[0]))
+            raise Tagged(["C07"], "invalid-state", "; ".join(probs[:3]), dict(site, what=probs[0].split(":")[0]), from_invariant=True)
         bp = bookkeeping_problems(w, post)
         if bp:
-            raise Tagged(["C13"], "bookkeeping", "; ".join(bp[:3]), dict(site, what=bp[0].split(":")[0]))
+            raise Tagged(["C13"], "bookkeeping", "; ".join(bp[:3]), dict(site, what=bp[0].split(":")[0]), from_invariant=True)
         # C20: partition rule + bystander blocks untouched
         touched_blocks = {pre.where[a] for a in addressed if a in pre.where}
         for bi, b in enumerate(pre.blocks):
@@ -267,7 +270,7 @@ class Machine:
                 else:
                     why = "membership or order changed"
                 raise Tagged(["C20"], "bystander-modified", f"block {b.members} ({b.container.split(':')[0]}) does not contain an addressed subsystem but {why}",
-                             dict(site, what=why.split()[0]))
+                             dict(site, what=why.split()[0]), from_invariant=True)
         want_union = set()
         for bi in touched_blocks:
             want_union |= set(pre.blocks[bi].members)
@@ -276,12 +279,12 @@ class Machine:
             ms = set(pb.members)
             if ms & want_union:
                 if not ms <= want_union:
-                    raise Tagged(["C20"], "over-merge", f"block {pb.members} now also holds subsystems of blocks that contained no addressed subsystem", site)
+                    raise Tagged(["C20"], "over-merge", f"block {pb.members} now also holds subsystems of blocks that contained no addressed subsystem", site, from_invariant=True)
                 if not allow_merge:
                     # single-subsystem action: no block may grow
                     origin = [pre.blocks[bi] for bi in touched_blocks]
                     if not any(ms <= set(o.members) for o in origin):
-                        raise Tagged(["C20"], "grew", f"single-subsystem action enlarged a product space to {pb.members}", site)
+                        raise Tagged(["C20"], "grew", f"single-subsystem action enlarged a product space to {pb.members}", site, from_invariant=True)
         if allow_merge and len(addressed) >= 2:
             live_addr = [a for a in addressed if a in post.where]
             if live_addr and len({post.where[a] for a in live_addr}) != 1:
